@@ -61,7 +61,20 @@ class Check(FormulaCheck):
             self.e.bind(v_arr=arr)
             return 'v_arr', how
         self.range_value = arr
-        return 'A1:H8', how
+        # the range is written with the corners it really has (a single cell for one item, one row / one column for a 1-D array):
+        # nothing about a range's value may depend on how small the range is
+        from ..models import cells as mcells
+        if arr and isinstance(arr[0], list):
+            rows, cols = len(arr), len(arr[0])
+        elif rnd.random() < 0.5:
+            rows, cols = 1, max(1, len(arr))
+        else:
+            rows, cols = max(1, len(arr)), 1
+        r0, c0 = rnd.randint(0, 30), rnd.randint(0, 40)
+        a, b = '%s%d' % (mcells.col_label(c0), r0 + 1), '%s%d' % (mcells.col_label(c0 + cols - 1), r0 + rows)
+        if rnd.random() < 0.3:
+            a, b = rnd.choice([(b, a), ('$' + a, b), (a.lower(), b)])
+        return '%s:%s' % (a, b), how
 
     # ------------------------------------------------------------------ INDEX
     def elements(self, arr):
@@ -303,6 +316,14 @@ class Check(FormulaCheck):
                                 ([[1, 2, 3], [4, 5, 6]], 3, 1, True), ([[1, 2, 3], [4, 5, 6]], None, 3, True), ([[1, 2, 3], [4, 5, 6]], 0, 0, True)):
             for _ in range(3):
                 self.judge_index(arr, r, c, rnd, twod)
+        # a range of one cell answered with a one-item list is an array of one item
+        for x in (7, 'kiwi', 2.5):
+            for lab in ('A1:A1', '$B$2:B2', 'c3:C3'):
+                self.range_value = [x]
+                X = hx.strlit(x) if isinstance(x, str) else hx.lit(x)
+                for f, exp in (('INDEX(%s,1)' % lab, x), ('MATCH(%s,%s,0)' % (X, lab), 1), ('INDEX(%s,MATCH(%s,%s,0))' % (lab, X, lab), x), ('MATCH(%s,%s,1)' % (X, lab), 1) if not isinstance(x, str) else ('INDEX(%s,1)' % lab, x)):
+                    g = self.ev(f)
+                    self.expect('C18/one-cell-range-is-not-an-array-of-one-item', g == exp and type(g) is type(exp), formula=f, host_value=[x], got=g, expected=exp)
         g = self.ev('MATCH(0,{-3,0,2},1)')
         self.expect('C18/MATCH-ascending-type-1:zero-candidate', g == 2, got=g)
         g = self.ev('MATCH("AP*",{"pear","Apple"},0)')
